@@ -399,6 +399,19 @@ inductive RSEvent
   | push (cfg : Load)
   | kill
 
+/-- (S only) a Caddyfile: c<n><d|n> — adapted by the real adapter; `n` = `persist_config off` -/
+def parseRSCaddyfile (s : String) : Option Load :=
+  match s.toList with
+  | 'c' :: rest =>
+    match rest.span Char.isDigit with
+    | (num, [p]) =>
+      if num.isEmpty then none
+      else if p == 'd' then some (caddyfileLoad (str (String.ofList rest)) .absent true true)
+      else if p == 'n' then some (caddyfileLoad (str (String.ofList rest)) .off true true)
+      else none
+    | _ => none
+  | _ => none
+
 def parseRSEvent (s : String) : Option RSEvent :=
   match s.splitOn ":" with
   | ["K"] => some .kill
@@ -407,7 +420,7 @@ def parseRSEvent (s : String) : Option RSEvent :=
     if r != "r" && r != "-" then none else
     match parseRSCfg true c with
     | some l => if l.accepted then some (.start (r == "r") l) else none
-    | none => none
+    | none => (parseRSCaddyfile c).map (.start (r == "r"))
   | _ => none
 
 def rsState (d : CDisk) (e : PEnv) (files : List EnvFile) : String :=
